@@ -140,6 +140,70 @@ def bounded_time_stage(ctx, V):
               "refusing, garbage-sending and flapping peer" % BOUND)
 
 
+def deadline_stage(ctx, V, exe, n):
+    """the bounded-time clause on the WHOLE daemon under the virtual OS, for the steady case C04_deadline_reached /
+    C04_bounded_time_steady speak about: one tcp device that refuses every connect (no connection ever comes up: the run is
+    steady), one request for a node of it at a random moment between the back-off wake-ups.  The virtual clock advances by
+    exactly what the daemon asks poll for, so the terminal reply must arrive at (request time + device time-out) up to
+    rounding - it does if and only if the daemon registers the head action's deadline as a poll time-out (C04_no_timerless_wait)"""
+    import random
+    from concurrent.futures import ThreadPoolExecutor
+    SLACK = 60000
+    jobs = []
+    for i in range(n):
+        rng = random.Random(ctx.seed * 7919 + i)
+        T = rng.choice([2.5, 5.0, 6.0, 9.0, 11.0, 20.0])
+        cfg = pmgen.Config()
+        d = pmgen.Dev("d0", ["login", "on", "off"], hardwired=["p1"], timeout=T, ping=0)
+        d.transport = "tcp"
+        d.bodies = {"login": 'send "login\\n"\n\t\texpect "ok"', "on": 'send "on %s\\n"\n\t\texpect "done"', "off": 'send "off %s\\n"\n\t\texpect "done"'}
+        cfg.devs.append(d); cfg.node_lines.append(("n1", "d0", "p1")); cfg.truth = {"d0": {"p1": "n1"}}
+        kind = rng.choice(["refuse-hup", "refuse-soerr", "syncfail"])
+        wait = rng.choice([200000, 1200000, 3500000, 5100000, 8000000, 16500000, rng.randrange(100000, 30000000)])
+        S = [("raw", ["PLAN " + kind] * 120), ("connect",), ("wait", 0), ("sleep", wait), ("send", 0, rng.choice([b"on n1\r\n", b"off n1\r\n"])), ("wait", 0)]
+        jobs.append((i, T, pmcheck.Scenario(cfg, S, dict(style="c04-deadline", kind=kind, wait=wait, max_rounds=400), env={"PMSIM_PLAN": kind})))
+
+    def one(j):
+        i, T, sc = j
+        try:
+            return pmcheck.run_scenario(exe, sc, ctx.scratch, "c04dl%d" % i, ctx.seed + i, max_rounds=400)
+        except Exception as ex:
+            return ex
+    with ThreadPoolExecutor(16) as ex:
+        res = list(ex.map(one, jobs))
+    for (i, T, sc), sess in zip(jobs, res):
+        V.case(("deadline", sc.cfg.text(), repr(sc.script)), nontrivial=True); V.count("deadline-cases")
+        if isinstance(sess, Exception):
+            V.tie_broken("tie", "pmsim-run", repr(sess), case=sc.describe()); continue
+        w = dict(sc.describe(), events=sess.sim.events, client_out=sess.client_out.get(0, b"").decode("latin-1")[-600:])
+        for bad in pmcheck.mon_alive(sess, sc) + pmcheck.mon_protocol(sess, sc):
+            V.violation(bad[0], bad[1], w, bad[2])
+        # when was the request handed to the daemon, when was its terminal line complete
+        t_req = None
+        for r, evs in zip(sess.rounds, sess.sim.events):
+            if any(e.startswith("IN c0 ") for e in evs):
+                t_req = r.now + sum(int(e.split()[1]) for e in evs if e.startswith("ADV "))
+        acc, t_rep, nterm = b"", None, 0
+        for t, data in sess.client_times.get(0, []):
+            acc += data
+            k = len(pmcheck.TERMINAL.findall(acc))
+            if k > nterm and t_req is not None and t >= t_req:
+                t_rep = t; break
+            nterm = k
+        if t_req is None or t_rep is None:
+            if sess.alive_after_script and not sess.overrun:
+                V.violation("bounded-time", "no-reply", w, "the request for a node of a device that refuses every connect got no terminal reply (request at %s us)" % t_req)
+            continue
+        late = t_rep - t_req - int(T * 1000000)
+        V.count("deadline-on-time" if late <= SLACK else "deadline-late")
+        if late > SLACK:
+            V.violation("bounded-time", "deadline-slept-through", dict(w, t_request=t_req, t_reply=t_rep, timeout_us=int(T * 1000000)),
+                        "device time-out %g s, connects refused (%s): the request of %d us was answered at %d us, %d us after its deadline "
+                        "(the daemon asked poll for a wake-up later than the head action's deadline)" % (T, sc.tags["kind"], t_req, t_rep, late))
+    V.rule = (V.rule + " || " if V.rule else "") + ("deadline on pmsim: a request for a node of a tcp device that refuses every connect is answered at request time + device time-out "
+              "(+ %d us), for time-outs 2.5-20 s and request times between the back-off wake-ups" % SLACK)
+
+
 def xpoll_correspond(ctx, V):
     """R-XPOLL: the real xpoll() (poll and gettimeofday wrapped: every poll call is interrupted as long as the case supplies
     clock readings) against Model/Xpoll.v; monitor: with a finite time-out no poll call may get a negative (= infinite) one"""
@@ -181,6 +245,7 @@ def run(ctx, V):
     bounded_time_stage(ctx, V)
     exe = pmsim.build(ctx)
     rsim(ctx, V, exe, int(os.environ.get('C04_N', 0)) or 300 if ctx.tier == "quick" else 6000, styles=("mixed", "faults", "healthy"), prefix="c04")
+    deadline_stage(ctx, V, exe, 40 if ctx.tier == "quick" else 1200)
     # the 1 MiB client buffers (overwrite of the oldest bytes): replayed through the model like every other run
     if ctx.tier != "quick":       # ~3 minutes of model time per history (a million-element list per pass): thorough tier only
         os.environ.setdefault("PMREPLAY_TIMEOUT", "2400"); pmreplay.MODEL_TIMEOUT = int(os.environ["PMREPLAY_TIMEOUT"])
